@@ -32,7 +32,7 @@ type heldResult struct {
 }
 
 func TestC16Aliasing(t *testing.T) {
-	rec := obs.NewRecorder("C16", "aliasing", "rapid: two well-formed streams rich in byte slices (PES payloads, adaptation field private data, PES private/extension-2 data, descriptors of every type, CAT/null noise), each on its own Demuxer, driven alternately in a drawn order with NextPacket or NextData; every returned Packet/DemuxerData is rendered canonically at delivery and re-rendered after EVERY later call on either Demuxer and at the end: any change is a violation (a returned slice aliasing a reused read buffer or a pooled payload buffer); non-trivial = >= 6 results held while >= 6 later calls run; distinct by the two streams' bytes")
+	rec := obs.NewRecorder("C16", "aliasing", "rapid: two well-formed streams rich in byte slices (PES payloads, adaptation field private data, PES private/extension-2 data, descriptors of every type, CAT/null noise), each on its own Demuxer, driven alternately in a drawn order with NextPacket or NextData; every returned Packet/DemuxerData is rendered canonically at delivery and re-rendered after EVERY later call on either Demuxer and at the end: any change is a violation (a returned slice aliasing a reused read buffer or a pooled payload buffer); with NextPacket, adaptation fields of received packets are also handed to a Muxer whose writer fails mid-packet (they then belong to the caller; every other result must be unchanged); non-trivial = >= 6 results held while >= 6 later calls run; distinct by the two streams' bytes")
 	defer rec.Flush()
 	rapid.Check(t, func(t *rapid.T) {
 		ma, mb := c16Stream(t, "a"), c16Stream(t, "b")
@@ -41,6 +41,8 @@ func TestC16Aliasing(t *testing.T) {
 		da := astits.NewDemuxer(context.Background(), bytes.NewReader(sa), astits.DemuxerOptPacketSize(188))
 		db := astits.NewDemuxer(context.Background(), bytes.NewReader(sb), astits.DemuxerOptPacketSize(188))
 		sched := rapid.SliceOfN(rapid.Bool(), 64, 64).Draw(t, "schedule")
+		remux := rapid.SliceOfN(rapid.Bool(), 64, 64).Draw(t, "remux")
+		remuxed := 0
 		var held []*heldResult
 		doneA, doneB := false, false
 		calls := 0
@@ -88,10 +90,34 @@ func TestC16Aliasing(t *testing.T) {
 			if err == nil {
 				held = append(held, &heldResult{what: what, v: v, snap: obs.Canon(v)})
 			}
+			if usePackets && remux[i%64] && len(held) > 0 {
+				// the caller remuxes: it hands the adaptation field of a packet it received to a Muxer whose writer fails in
+				// the middle of the PES packet. That adaptation field is the caller's from then on (the Muxer records
+				// stuffing in it); every OTHER result must stay as it was
+				pick := -1
+				for k := len(held) - 1; k >= 0 && k >= len(held)-8; k-- {
+					if p := held[k].v.(*astits.Packet); p.AdaptationField != nil && (pick < 0 || p.AdaptationField.Length == 0) {
+						pick = k
+					}
+				}
+				if pick >= 0 {
+					af := held[pick].v.(*astits.Packet).AdaptationField
+					mx := astits.NewMuxer(context.Background(), &refusingWriter{left: 2*188 + 4 + i%100})
+					_ = mx.AddElementaryStream(astits.PMTElementaryStream{ElementaryPID: 0x100, StreamType: astits.StreamTypeMPEG2Video})
+					mx.SetPCRPID(0x100)
+					_, _ = mx.WriteData(&astits.MuxerData{PID: 0x100, AdaptationField: af, PES: &astits.PESData{Header: &astits.PESHeader{StreamID: 0xe0}, Data: []byte{1, 2, 3, 4, 5}}})
+					held = append(held[:pick:pick], held[pick+1:]...)
+					verify(fmt.Sprintf("the adaptation field of an earlier result was handed to a Muxer (after %s)", what))
+					remuxed++
+				}
+			}
 		}
 		// pressure on the pools, then a last look
 		runtime.GC()
 		verify("the end of both streams and a garbage collection")
+		if remuxed > 0 {
+			rec.ClassN("adaptation_fields_handed_to_a_failing_muxer", int64(remuxed))
+		}
 		h := obs.NewHasher()
 		h.Bytes(sa)
 		h.Bytes(sb)
